@@ -523,4 +523,16 @@ def r9_7(ctx: Ctx) -> RuleResult:
     return rr
 
 
-RULES = [r9_1, r9_2, r9_3, r9_4, r9_5, r9_6, r9_7]
+def r9_8(ctx: Ctx) -> RuleResult:
+    """The result is a function of (query text, document, filter context) alone - so nothing that compiling or
+    evaluating does may travel through state that environments, queries or calls share: no function of the query
+    engine stores into a class-level or module-level container, unless it is a memo that is consulted first and
+    keyed by every argument the function reads (= R4.8 over the engine's modules)."""
+    from .c04 import r4_8
+
+    return r4_8(ctx, "R9.8", modules=("jsonpath.env", "jsonpath.path", "jsonpath.filter", "jsonpath.selectors", "jsonpath.lex", "jsonpath.parse",
+                                      "jsonpath.match", "jsonpath.stream", "jsonpath.token", "jsonpath.function_extensions", "jsonpath._data",
+                                      "jsonpath.serialize", "jsonpath.fluent_api"), floor=200)
+
+
+RULES = [r9_1, r9_2, r9_3, r9_4, r9_5, r9_6, r9_7, r9_8]
